@@ -202,6 +202,12 @@ def _factory_description(spec):
             # the other documented notation: an explicit compose whose members are still descriptions when its constructor sees them
             return {"kind": "kd_compose_transform", "transforms": members}
         return members
+    if k == "scheduled":
+        inner = _factory_description(spec["t"])
+        return None if inner is None else {"kind": "kd_scheduled_transform", "transform": inner}
+    if k == "patchwise":
+        inner = _factory_description(spec["t"])
+        return None if inner is None else {"kind": "patchwise_transform", "patch_size": spec["ps"], "transform": inner}
     if k in LEAVES and k not in _MODULES and (hasattr(T, k) or hasattr(CT, k)):
         args = {a: (tuple(v) if isinstance(v, list) and a in ("scale", "sigma", "fill_color") else v) for a, v in spec.get("a", {}).items()}
         # both spellings the factory accepts: the class name and its lower-case form (underscores are ignored)
@@ -226,6 +232,8 @@ def _materialize(desc):
         return [_materialize(d) for d in desc]
     if isinstance(desc, dict) and desc.get("kind") == "kd_compose_transform":
         return dict(desc, transforms=[_materialize(d) for d in desc["transforms"]])
+    if isinstance(desc, dict) and "transform" in desc:
+        return dict(desc, transform=_materialize(desc["transform"]))
     if isinstance(desc, tuple) and desc[0] == "object":
         return build(desc[1])
     return desc
